@@ -204,12 +204,19 @@ class RemoveUnusedVariables(VisitorBasedCodemodCommand, NameResolutionMixin):
             #        return node.with_changes(elements = new_elements)
             #    return None
             case cst.Name():
-                if self.find_accesses(node):
+                if self.find_accesses(node) or self._is_referenced(node):
                     return node
                 else:
                     return None
             case _:
                 return node
+
+    def _is_referenced(self, node: cst.Name) -> bool:
+        """The accesses of a scope do not include reads from nested scopes
+        (closures): those are found through the assignment's references."""
+        if scope := self.get_metadata(ScopeProvider, node, None):
+            return any(assignment.references for assignment in scope[node.value])
+        return False
 
     def leave_Assign(
         self, original_node: cst.Assign, updated_node: cst.Assign
